@@ -1567,9 +1567,15 @@ static int mode_strict(Args &args, Result &total)
       std::vector<Slot> slots;
       std::vector<std::string> bad_err;
       run_batch(M.size() + 1, [&](size_t k, Slot &s) { exec_parse(k == 0 ? f.text : M[k - 1].text, s); }, 20.0, slots, &bad_err);
-      if (slots[0].status != 1 || !slots[0].accepted) {
-        fprintf(stderr, "HARNESS-ERROR: corpus file %s is not accepted unmodified (status %d rc %d)\n", f.name.c_str(),
-                slots[0].status, slots[0].rc);
+      if (slots[0].status != 1) {
+        // the parser dies on an unmodified repository input: a totality violation; nothing else can be said about this file
+        r.count("evaluations");
+        r.count("strict_files_skipped_unmodified_file_dies");
+        report_dead(r, "strict", f.text, slots[0], bad_err.size() ? bad_err[0] : "", f.name + ":unmodified");
+        continue;
+      }
+      if (!slots[0].accepted) {
+        fprintf(stderr, "HARNESS-ERROR: corpus file %s is not accepted unmodified (rc %d)\n", f.name.c_str(), slots[0].rc);
         _exit(2);
       }
       r.count("strict_corpus_files");
@@ -1731,8 +1737,13 @@ static int mode_layout(Args &args, Result &total)
       // the original record, computed twice (determinism is a precondition of the comparison)
       Obs o1 = observe_in_child(f.text), o2 = observe_in_child(f.text);
       if (o1.rc_parse == -12345) {
-        fprintf(stderr, "HARNESS-ERROR: the run of the unmodified %s died\n", f.name.c_str());
-        _exit(2);
+        // parse + 3 steps of an unmodified repository input die: reported, file skipped
+        Slot ds = Slot();
+        ds.status = 2;
+        r.count("evaluations");
+        r.count("layout_files_skipped_unmodified_file_dies");
+        report_dead(r, "layout", f.text, ds, "", f.name + ":unmodified");
+        continue;
       }
       if (o1.rc_parse != 0) {
         fprintf(stderr, "HARNESS-ERROR: corpus file %s is not accepted unmodified: %s\n", f.name.c_str(), o1.err.c_str());
